@@ -384,90 +384,74 @@ def strCap (v : Vector) : Nat := if v.cap > 0 then v.cap - 1 else 0
 def strReserve (ans : Nat → Bool) (newId : Nat) (v : Vector) (sz : Nat) : Vector × List Ev :=
   reserve ans newId v (addW sz 1)
 
+/-- sequencing of steps that may stop (`r.1` / `r.2` instead of pattern
+matching keeps the terms small for the proofs) -/
+def andThen {α β : Type} (x : Except Stop α) (f : α → Except Stop β) : Except Stop β :=
+  match x with
+  | .error s => .error s
+  | .ok a => f a
+
+theorem andThen_ok {α β : Type} (a : α) (f : α → Except Stop β) : andThen (.ok a) f = f a := rfl
+theorem andThen_error {α β : Type} (s : Stop) (f : α → Except Stop β) :
+    andThen (.error s : Except Stop α) f = .error s := rfl
+
 /-- `STRF(__resize)` (repaired: abort when `n + 1` is not representable) -/
 def strResize0 (ans : Nat → Bool) (newId : Nat) (v : Vector) (n : Nat) : Except Stop (Vector × List Ev) :=
   if addW n 1 = 0 then .error .abort
-  else match resize ans newId v (addW n 1) with
-    | .error s => .error s
-    | .ok (v1, e) =>
-      match rawSet v1 n 0 with
-      | .error s => .error s
-      | .ok v2 => .ok (v2, e)
+  else
+    andThen (resize ans newId v (addW n 1)) fun r =>
+    andThen (rawSet r.1 n 0) fun v2 =>
+    .ok (v2, r.2)
 
 /-- `cstl_STRING_resize` -/
 def strResize (ans : Nat → Bool) (newId : Nat) (v : Vector) (n : Nat) : Except Stop (Vector × List Ev) :=
-  let sz := strSize v
-  match strResize0 ans newId v n with
-  | .error s => .error s
-  | .ok (v1, e) =>
-    match fillLoop (n - sz) v1 sz 0 with
-    | .error s => .error s
-    | .ok v2 => .ok (v2, e)
+  andThen (strResize0 ans newId v n) fun r =>
+  andThen (fillLoop (n - strSize v) r.1 (strSize v) 0) fun v2 =>
+  .ok (v2, r.2)
 
 /-- `STRF(prep_insert)` (repaired: abort when `size + len` is not representable) -/
 def prepInsert (ans : Nat → Bool) (newId : Nat) (v : Vector) (pos len : Nat) : Except Stop (Vector × List Ev) :=
   if pos > strSize v then .error .abort
   else if len > 0 then
-    let size := strSize v
-    if len > SIZE_MAX - size then .error .abort
-    else match strResize0 ans newId v (addW size len) with
-      | .error s => .error s
-      | .ok (v1, e) =>
-        match rawMove v1 (addW pos len) pos (mulW (subW size pos) v.esz) with
-        | .error s => .error s
-        | .ok v2 => .ok (v2, e)
+    if len > SIZE_MAX - strSize v then .error .abort
+    else
+      andThen (strResize0 ans newId v (addW (strSize v) len)) fun r =>
+      andThen (rawMove r.1 (addW pos len) pos (mulW (subW (strSize v) pos) v.esz)) fun v2 =>
+      .ok (v2, r.2)
   else .ok (v, [])
 
 /-- `cstl_STRING_insert_ch` -/
 def insertCh (ans : Nat → Bool) (newId : Nat) (v : Vector) (idx cnt ch : Nat) : Except Stop (Vector × List Ev) :=
-  match prepInsert ans newId v idx cnt with
-  | .error s => .error s
-  | .ok (v1, e) =>
-    match fillLoop cnt v1 idx ch with
-    | .error s => .error s
-    | .ok v2 => .ok (v2, e)
+  andThen (prepInsert ans newId v idx cnt) fun r =>
+  andThen (fillLoop cnt r.1 idx ch) fun v2 =>
+  .ok (v2, r.2)
 
 /-- `cstl_STRING_insert_str_n` with the caller's array `src` -/
 def insertStrN (ans : Nat → Bool) (newId : Nat) (v : Vector) (idx : Nat) (src : List Nat) (len : Nat) :
     Except Stop (Vector × List Ev) :=
-  match prepInsert ans newId v idx len with
-  | .error s => .error s
-  | .ok (v1, e) =>
-    match rawWrite v1 idx src (mulW len v.esz) with
-    | .error s => .error s
-    | .ok v2 => .ok (v2, e)
+  andThen (prepInsert ans newId v idx len) fun r =>
+  andThen (rawWrite r.1 idx src (mulW len v.esz)) fun v2 =>
+  .ok (v2, r.2)
 
 /-- `STRF(substr_prep)` (repaired clamp `len > size - pos`): the clamped length -/
 def substrPrep (v : Vector) (pos len : Nat) : Except Stop Nat :=
-  let size := strSize v
-  if pos ≥ size then .error .abort
-  else if len > size - pos then .ok (size - pos) else .ok len
+  if pos ≥ strSize v then .error .abort
+  else if len > strSize v - pos then .ok (strSize v - pos) else .ok len
 
 /-- `cstl_STRING_substr(s, idx, len, sub)` (`s` and `sub` distinct objects): the new `sub` -/
 def substr (ans : Nat → Bool) (newId : Nat) (s : Vector) (idx len : Nat) (sub : Vector) :
     Except Stop (Vector × List Ev) :=
-  match substrPrep s idx len with
-  | .error st => .error st
-  | .ok len1 =>
-    match strResize0 ans newId sub len1 with
-    | .error st => .error st
-    | .ok (sub1, e) =>
-      match rawRead s idx (mulW len1 s.esz) with
-      | .error st => .error st
-      | .ok src =>
-        match rawWrite sub1 0 src (mulW len1 s.esz) with
-        | .error st => .error st
-        | .ok sub2 => .ok (sub2, e)
+  andThen (substrPrep s idx len) fun len1 =>
+  andThen (strResize0 ans newId sub len1) fun r =>
+  andThen (rawRead s idx (mulW len1 s.esz)) fun src =>
+  andThen (rawWrite r.1 0 src (mulW len1 s.esz)) fun sub2 =>
+  .ok (sub2, r.2)
 
 /-- `cstl_STRING_erase` -/
 def erase (ans : Nat → Bool) (newId : Nat) (v : Vector) (idx len : Nat) : Except Stop (Vector × List Ev) :=
-  let size := strSize v
-  match substrPrep v idx len with
-  | .error st => .error st
-  | .ok len1 =>
-    match rawMove v idx (addW idx len1) (mulW (subW size (addW idx len1)) v.esz) with
-    | .error st => .error st
-    | .ok v1 => strResize0 ans newId v1 (subW size len1)
+  andThen (substrPrep v idx len) fun len1 =>
+  andThen (rawMove v idx (addW idx len1) (mulW (subW (strSize v) (addW idx len1)) v.esz)) fun v1 =>
+  strResize0 ans newId v1 (subW (strSize v) len1)
 
 /-- `cstl_STRING_at`: byte offset of the returned pointer -/
 def strAt (v : Vector) (i : Nat) : Except Stop Nat :=
@@ -545,5 +529,51 @@ def compareStr (v : Vector) (raw : List Nat) : Except Stop Int :=
   match cstrFrom v 0 with
   | none => .error .oob
   | some view => .ok (strcmpM (unitKey v.esz) view raw)
+
+/-! ### histories of string edits: two string objects of the same width -/
+
+/-- what `cstl_STRING_str(o)` gives a caller to copy from -/
+def objChars (o : Vector) : List Nat :=
+  match o.base with
+  | none => []
+  | some _ => o.elems
+
+/-- the edits of the string API on "this" object (`insertObj`, `substrTo`
+involve the other object).  `append*` is `insert*` at `pos = size`, `insert_str`
+is `insert_str_n` with `strlen`, `set_str` is `resize 0` followed by
+`append_str`: all inline in the header. -/
+inductive SOp where
+  | resize (n : Nat)
+  | reserve (n : Nat)
+  | insertCh (pos cnt ch : Nat)
+  | insertStrN (pos : Nat) (src : List Nat) (len : Nat)
+  | insertObj (pos : Nat)
+  | erase (pos n : Nat)
+  | substrTo (pos n : Nat)
+  | clear
+  | swap
+deriving Repr
+
+/-- one edit: `a` is "this", `b` the other object -/
+def sstep (ans : Nat → Bool) (id : Nat) (a b : Vector) : SOp → Except Stop (Vector × Vector)
+  | .resize n => andThen (strResize ans id a n) fun r => .ok (r.1, b)
+  | .reserve n => .ok ((strReserve ans id a n).1, b)
+  | .insertCh pos cnt ch => andThen (insertCh ans id a pos cnt ch) fun r => .ok (r.1, b)
+  | .insertStrN pos src len => andThen (insertStrN ans id a pos src len) fun r => .ok (r.1, b)
+  | .insertObj pos => andThen (insertStrN ans id a pos (objChars b) (strSize b)) fun r => .ok (r.1, b)
+  | .erase pos n => andThen (erase ans id a pos n) fun r => .ok (r.1, b)
+  | .substrTo pos n => andThen (substr ans id a pos n b) fun r => .ok (a, r.1)
+  | .clear => andThen (clear a) fun r => .ok (r.1, b)
+  | .swap => .ok (b, a)
+
+/-- a history: which object is "this" (`false` = first), the edit, the
+allocator's answers and the id of the block it would hand out -/
+def srun (a b : Vector) : List (Bool × SOp × (Nat → Bool) × Nat) → Except Stop (Vector × Vector)
+  | [] => .ok (a, b)
+  | (w, op, ans, id) :: rest =>
+    if w then
+      andThen (sstep ans id b a op) fun r => srun r.2 r.1 rest
+    else
+      andThen (sstep ans id a b op) fun r => srun r.1 r.2 rest
 
 end Cstl.Vec
